@@ -16,6 +16,19 @@ from collections.abc import Iterable, Sized
 # from typing import List
 
 
+
+def negative(other):
+    """
+    The negative of a constant operand. Integer and unsigned arrays are
+    negated as floating-point numbers, so that nothing wraps around.
+    """
+
+    if isinstance(other, (np.ndarray, np.generic)) and other.dtype.kind in 'iub':
+        return -np.asarray(other, dtype=float)
+
+    return -other
+
+
 def def_sol(formula, display=True, log=False, params={}):
     """
     This is the default solver of RSOME.
@@ -2361,7 +2374,7 @@ class Affine:
 
     def __sub__(self, other):
 
-        return self.__add__(-other)
+        return self.__add__(negative(other))
 
     def __rsub__(self, other):
 
@@ -2528,7 +2541,7 @@ class Convex:
 
     def __sub__(self, other):
 
-        return self.__add__(-other)
+        return self.__add__(negative(other))
 
     def __rsub__(self, other):
 
@@ -2688,7 +2701,7 @@ class PiecewiseConvex:
 
     def __sub__(self, other):
 
-        return self.__add__(-other)
+        return self.__add__(negative(other))
 
     def __rsub__(self, other):
 
@@ -2985,7 +2998,7 @@ class RoAffine:
 
     def __sub__(self, other):
 
-        return self.__add__(-other)
+        return self.__add__(negative(other))
 
     def __rsub__(self, other):
 
@@ -4817,7 +4830,7 @@ class ExpPiecewiseConvex(PiecewiseConvex):
 
     def __sub__(self, other):
 
-        return self.__add__(-other)
+        return self.__add__(negative(other))
 
     def __rsub__(self, other):
 
@@ -4978,7 +4991,7 @@ class DecRoAffine(RoAffine):
 
     def __sub__(self, other):
 
-        return self.__add__(-other)
+        return self.__add__(negative(other))
 
     def __mul__(self, other):
 
